@@ -44,6 +44,7 @@ class real:
     os_open = os.open
     os_write = os.write
     os_close = os.close
+    os_fsync = os.fsync
     listdir = os.listdir
     utime = os.utime
     stat = os.stat
@@ -406,7 +407,7 @@ class World:
         sched = self.sched
         if sched is not None and sched.current() is not None and \
                 getattr(self._tls, "override", _NO) is _NO:
-            sched.yield_point(label, interesting=True)
+            sched.yield_point(label, interesting=True, access=True, fs=True)
             if proc.dead:              # killed while parked
                 raise SimCrash()
         else:
@@ -632,6 +633,42 @@ def install() -> None:
 
     SourceFileLoader.get_data = get_data
 
+    def os_write(fd, data):
+        """Raw writes on a descriptor that mkstemp handed out in the
+        sandbox: an event; under ENOSPC the kernel writes what fits and
+        returns a *short count* (the next write then fails)."""
+        w = _active
+        if w is None or fd not in w_fds(w) or w.current_proc() is None:
+            return real.os_write(fd, data)
+        path = w_fds(w)[fd]
+        raw = w_raw(w).setdefault(fd, {"handed": bytearray(), "full": False})
+        raw["handed"] += bytes(data)
+        if raw["full"]:
+            _raise("enospc", path)
+        f = w.fs_event("write", path)
+        if f in ("enospc", "eio"):
+            if f == "eio":
+                _raise(f, path)
+            raw["full"] = True
+            half = bytes(data)[:len(data) // 2]
+            if not half:
+                _raise(f, path)
+            return real.os_write(fd, half)
+        return real.os_write(fd, data)
+
+    def os_close(fd):
+        w = _active
+        if w is None or fd not in w_fds(w) or w.current_proc() is None:
+            return real.os_close(fd)
+        path = w_fds(w).pop(fd)
+        raw = w_raw(w).pop(fd, None)
+        w.fs_event("close", path)
+        if raw is not None:
+            w.note_complete(path, bytes(raw["handed"]))
+        return real.os_close(fd)
+
+    os.write = os_write
+    os.close = os_close
     os.rename = rename
     os.replace = replace
     os.remove = remove
@@ -642,6 +679,13 @@ def install() -> None:
     tempfile.mkstemp = mkstemp
     py_compile.compile = pycompile
     builtins.open = open_
+
+
+def w_raw(w: World) -> dict:
+    d = getattr(w, "_raw", None)
+    if d is None:
+        d = w._raw = {}                 # type: ignore[attr-defined]
+    return d
 
 
 def w_fds(w: World) -> dict:
